@@ -176,10 +176,10 @@ def ensure_facts(config="default", log=sys.stderr):
         out = os.path.join(base, th)
         if not os.path.exists(os.path.join(out, "META.json")):
             _extract(config, out, log)
-            # bound the cache: keep the 4 most recent trees per config
+            # bound the cache: keep the 16 most recent trees per config
             ds = sorted((d for d in os.listdir(base) if not d.endswith(".tmp")),
                         key=lambda d: os.path.getmtime(os.path.join(base, d)))
-            for d in ds[:-4]:
+            for d in ds[:-16]:
                 shutil.rmtree(os.path.join(base, d), ignore_errors=True)
         else:
             os.utime(out)
